@@ -160,3 +160,55 @@ pub(crate) fn sender_pending_len(t: usize) -> usize {
         None => 0,
     }
 }
+
+// ------------------------------------------------------------------------------------------------
+// C17 / C18 / C02: LocalSpansInner::to_span_records = amend_local_span + mount_danglings, the
+// conversion the collector also uses for local span sets.  A set of two spans without events or
+// properties (the dangling map stays empty): a finished span followed by a span that was still
+// open at collection.
+fn random_state_stub() -> std::hash::RandomState {
+    unsafe { std::mem::zeroed() }
+}
+
+#[kani::proof]
+#[kani::unwind(4)]
+#[kani::stub(std::hash::RandomState::new, random_state_stub)]
+fn gc_to_span_records_finished_then_open() {
+    static N_A: &str = "a";
+    static N_B: &str = "bb";
+    unsafe {
+        fastant::CLOCK = kani::any();
+        kani::assume(fastant::CLOCK >= 10 && fastant::CLOCK < (1u64 << 40));
+        fastant::ANCHOR_UNIX = 1u64 << 60;
+    }
+    let now = unsafe { fastant::CLOCK };
+    let (b1, e1, b2, et): (u64, u64, u64, u64) = (kani::any(), kani::any(), kani::any(), kani::any());
+    kani::assume(1 <= b1 && b1 <= e1 && e1 <= b2 && b2 <= et && et <= now);
+    let i1 = SpanId(kani::any());
+    let i2 = SpanId(kani::any());
+    let nested: bool = kani::any();
+    kani::assume(i1 != SpanId::default());
+    let mut r1 = RawSpan::begin_with(i1, SpanId::default(), Instant(b1), N_A, RawKind::Span);
+    r1.end_with(Instant(e1));
+    let r2 = RawSpan::begin_with(i2, if nested { i1 } else { SpanId::default() }, Instant(b2), N_B, RawKind::Span);
+    let set = LocalSpansInner { spans: vec![r1, r2], end_time: Instant(et) };
+    let ctx = SpanContext { trace_id: TraceId(kani::any()), span_id: SpanId(kani::any()), sampled: true };
+    let recs = set.to_span_records(ctx);
+    assert!(recs.len() == 2, "one record per local span");
+    let unix = |x: u64| (1u64 << 60) - (now - x);
+    // C02: trace id stamped, set roots get the context's span as parent, others keep theirs
+    assert!(recs[0].trace_id == ctx.trace_id && recs[1].trace_id == ctx.trace_id);
+    assert!(recs[0].span_id == i1 && recs[1].span_id == i2);
+    assert!(recs[0].parent_id == ctx.span_id, "a top-level local span must hang under the given parent");
+    assert!(recs[1].parent_id == if nested { i1 } else { ctx.span_id }, "nested local span lost its parent / root not re-parented");
+    // C18: begin = converted start instant, duration = finish - start
+    assert!(recs[0].begin_time_unix_ns == unix(b1) && recs[0].duration_ns == e1 - b1, "finished span: begin/duration wrong");
+    // C17 / C18: a span still open at collection is closed at the collection time
+    assert!(recs[1].begin_time_unix_ns == unix(b2), "open span: begin wrong");
+    assert!(recs[1].duration_ns == et - b2, "a span still open at collection must be closed at the collection time");
+    assert!(recs[0].name.as_ptr() == N_A.as_ptr() && recs[1].name.len() == 2);
+    assert!(recs[0].properties.is_empty() && recs[0].events.is_empty());
+    std::mem::forget((recs, set));
+    kani::cover!(nested);
+    kani::cover!(!nested && et > b2 + 1000);
+}
